@@ -54,6 +54,7 @@ def main(argv=None):
     ap.add_argument('--only')
     ap.add_argument('--no-rt', action='store_true')
     ap.add_argument('--write-baseline', action='store_true')
+    ap.add_argument('--write-loops', action='store_true', help='record only the headers of the contracted loops (baseline/<P>.loops.json)')
     ap.add_argument('-v', action='store_true')
     a = ap.parse_args(argv)
     prop = a.prop.upper()
@@ -76,7 +77,14 @@ def _main(a, prop, seed, t0):
     timeout = 60 if tier == 'quick' else 300
     if getattr(mod, 'BOUNDED_ONLY', False):
         return _bounded_only(a, prop, seed, t0, mod, tier)
+    from . import engine as _E
+    loops_path = os.path.join(ROOT, 'baseline', f'{prop}.loops.json')
+    _E.SEEN_LOOPS.clear(); _E.EXPECTED_LOOPS.clear()
+    if not a.write_baseline and not a.write_loops and os.path.exists(loops_path): _E.EXPECTED_LOOPS.update(json.load(open(loops_path)))
     obls, info = R.generate(mod, a.only)
+    if a.write_loops:
+        json.dump(_E.SEEN_LOOPS, open(loops_path, 'w'), indent=0, sort_keys=True)
+        print(f"loop headers written: {len(_E.SEEN_LOOPS.get('sigs', {}))}"); return 0
     gen_s = time.time() - t0
     known = load_known(prop)
     jobs = [Obligation(ob.name, list(ax) + list(ob.assumptions), ob.goal, ob.prefix, ob.kind, None, ob.axgroups) for name, ob, ax in obls]
@@ -153,6 +161,7 @@ def _main(a, prop, seed, t0):
         for (name, ob, _), r in zip(obls, res):
             if ob.kind != 'canary' and r['result'] == 'unsat': tms[name] = round(max(tms.get(name, 0.0), r['wall']), 2)
         json.dump(tms, open(os.path.join(ROOT, 'baseline', f'{prop}.times.json'), 'w'), indent=0, sort_keys=True)
+        json.dump(_E.SEEN_LOOPS, open(loops_path, 'w'), indent=0, sort_keys=True)      # headers of the loops the sidecar contracts were written for (guard against ordinal drift)
         print(f"baseline written: {len(names)-len(failed)} proved obligation names ({len(failed)} failed not listed)")
     baseline = set(json.load(open(base_path))) if os.path.exists(base_path) else set()
     missing = sorted(baseline - set(names))          # proved before, not even generated now
@@ -166,7 +175,7 @@ def _main(a, prop, seed, t0):
     focus = set(failed) | set(missing)
     if not a.no_rt and hasattr(mod, 'RT') and mod.RT:
         os.makedirs(os.path.join(ROOT, 'replays', prop), exist_ok=True)
-        outp = os.path.join(ROOT, 'replays', prop, '.rt_result.json')
+        outp = os.path.join(ROOT, 'replays', prop, f'.rt_result.{os.getpid()}.json')      # per process: two runs of the same property (e.g. one against a scratch tree) must not read each other's result
         need_refute = bool([n for n in failed if n not in known] or missing or info['unsupported'])
         rt = run_rt(prop, tier, seed, focus if need_refute else None, outp, budget=('refute' if need_refute else None))
         try: os.unlink(outp)
@@ -316,7 +325,7 @@ def _bounded_only(a, prop, seed, t0, mod, tier):
     labelled bounded (level 'exploration'); never reported as proved"""
     known = load_known(prop)
     os.makedirs(os.path.join(ROOT, 'replays', prop), exist_ok=True)
-    outp = os.path.join(ROOT, 'replays', prop, '.rt_result.json')
+    outp = os.path.join(ROOT, 'replays', prop, f'.rt_result.{os.getpid()}.json')      # per process: two runs of the same property (e.g. one against a scratch tree) must not read each other's result
     rt = run_rt(prop, tier, seed, None, outp)
     try: os.unlink(outp)
     except OSError: pass
